@@ -818,6 +818,10 @@ class Interp:
                 "keys", "values", "copy", "startswith", "endswith"):
             return False      # these never return None (group() excepted
                               # for optional groups: not used with is None)
+        if t[0] == "call" and t[1][0] == "global" and (
+                t[1][1] in self.m.classes
+                or self._is_exception_class(t[1][1])):
+            return False      # an instance just constructed
         return self.decide(("isnone", t))
 
     # ---------------------------------------------------------- expressions
